@@ -98,6 +98,11 @@ def run_variant(job):
     system = probes.clock_system(sysmode, d, s1, s2, dt, start, energies=energies,
                                  rot=None if rot_kind == "id" else rot, calls=calls, shifts=shifts)
 
+    if var.get("warm_start") is not None and sysmode == "td":
+        # the same system object served a computation with another start time before (propagating in legs, scanning the
+        # start time): nothing of that may survive in it
+        oqupy.compute_dynamics(system, initial_state=rho0.copy(), dt=dt, num_steps=2, start_time=start + var["warm_start"],
+                               subdiv_limit=var.get("subdiv", None), progress_type="silent")
     calls.clear()       # drop the calls made by the constructor's dimension probe
     kw = {}
     if k != KNONE:
